@@ -141,7 +141,8 @@ import p_meta
 
 reg("C10", p_meta.c10, {"R-ORDER": 6, "R-WHO": 8, "R-TABLE": 1}, ["r_order"],
     rule="R-ORDER never_after(fchmod, fchown); never_after(futimens, data write); each finalisation helper gated by "
-         "its own Config flag with the right polarity; R-TABLE the mode given to fchmod derives only from "
+         "its own Config flag with the right polarity, and conversely required when the flag says so (no path to the end of the "
+         "finalisation skips it without a failure signal); R-TABLE the mode given to fchmod derives only from "
          "Metadata::permissions; R-WHO finalisation only in Drop, helpers only in finalisation, CopyHandle not Clone, "
          "no descriptor duplication, pool jobs own an Arc<CopyHandle>.",
     technique="dominance/reachability ordering rules, config-flag control dependence, provenance of the mode argument, who-may-call",
@@ -152,7 +153,8 @@ reg("C10", p_meta.c10, {"R-ORDER": 6, "R-WHO": 8, "R-TABLE": 1}, ["r_order"],
     not_decided="nanosecond equality, xattr contents, effect of umask, ACL handling by the kernel.")
 
 reg("C18", p_meta.c18, {"R-ORDER": 1, "R-WHO": 8}, ["r_order"],
-    rule="gated(sync, Config.fsync, true); never_after(fsync, data write); sync reaches fsync(2); ownership facts of C06(c).",
+    rule="gated(sync, Config.fsync, true) and required-when(fsync == true): every path to the end of the finalisation passes "
+         "sync or a failure signal; never_after(fsync, data write); sync reaches fsync(2); ownership facts of C06(c).",
     technique="config-flag control dependence + ordering + ownership/who-may-call facts (no schedule exploration)",
     decided="fsync is issued iff requested, inside the finalisation that only the handle's Drop runs; nothing writes "
             "data after it; the handle cannot be cloned nor its descriptors duplicated, so Drop runs after the last "
@@ -190,7 +192,8 @@ reg("C09", p_gate.c09, {"R-ORDER": 2, "R-TABLE": 5, "R-ERR": 8}, ["r_order", "r_
     rule="CopyHandle::new: rename(to, get_backup_path(to)) is control-dependent on needs_backup, precedes the truncating "
          "open on that branch, is error-propagated, and is the only way the old file is touched; backup-name functions "
          "contain no lossy/partial OsStr->str conversion of file-name data; directory-entry errors of the scan are not "
-         "swallowed; needs_backup's per-mode arms probe/scan as tabled.",
+         "swallowed; needs_backup's per-mode arms probe/scan as tabled; the scan lists the lexical parent of the destination (no "
+         "canonicalize/read_link of the destination's own name in the backup logic).",
     technique="dominance/ordering + provenance of the rename target + lossy-conversion who-may-call + error discipline on the scan",
     decided="(a) the old file is preserved by one atomic rename to the computed backup name before the destination is "
             "re-created (so at every instant the old content is under one of the two names); (b) names are compared "
@@ -274,8 +277,11 @@ reg("C06", p_thread.c06, {"R-ORDER": 2, "R-WHO": 10, "R-THREAD": 6, "R-SIB": 6, 
     rule="(a) directories are created by the walker thread itself (Dir arm, error-propagated, no Operation carries a directory, "
          "no contents_first); (b) pool jobs reach no cursor-based I/O and the kernel copy gets explicit offsets; (c) finalisation "
          "only from Drop, handle not Clone, descriptors not duplicated, jobs own an Arc; (d) every spawn joined on every path to "
-         "Ok and the pool joined before the dispatcher's Ok; (e) the two drivers agree per Operation variant.",
-    technique="ownership/who-may-call facts + spawn/join pairing + sibling agreement (no schedule exploration)",
+         "Ok and the pool joined before the dispatcher's Ok; (e) the two drivers agree per Operation variant; (f) R-TILE: the block jobs "
+         "cut from a range tile it (first at the start, adjacent, last at the end, at least one), so the block-level driver "
+         "moves the same bytes as the file-level one.",
+    technique="ownership/who-may-call facts + spawn/join pairing + sibling agreement + abstract interpretation of the "
+              "block-splitting arithmetic in a polynomial domain with a ceil-division lemma (no schedule exploration)",
     decided="the mechanisms that make the outcome schedule-independent: directory-before-children by construction, no shared "
             "cursor, metadata after the last writer by ownership, joins before success, driver agreement.",
     not_decided="equality of the final tree across schedules in general (two sources mapping onto one destination path race by design).")
@@ -305,14 +311,17 @@ reg("C01", p_copy.c01, {"R-SHORT": 9, "R-TABLE": 4, "R-ROLE": 20}, ["r_short", "
          "source's metadata dominates every Ok(handle), CopyHandle is only built there; (b) R-SHORT over every call chain from "
          "the drivers to copy_file_range/pread/pwrite/read/write: each partial count is accumulated in a completing loop, "
          "compared-and-failed, or forwarded; (c) kernel copier, user-space copier and clone are reachable from both Copy arms; "
-         "roles of all data-moving sinks; block jobs use explicit offsets and (R-RANGE) stay inside the range they were cut from.",
+         "roles of all data-moving sinks; block jobs use explicit offsets, (R-RANGE) stay inside the range they were cut from and "
+         "(R-TILE) tile it: off(lo) == start, off(idx+1) == off(idx) + bytes(idx), off(hi-1) + bytes(hi-1) >= end, a non-empty "
+         "range has a job; a buffer read into at the same position on every iteration is written out inside the loop.",
     technique="short-count dataflow (partial/total function summaries) + dominance of truncate-then-size + role inference + "
               "abstract interpretation of the block-splitting arithmetic in a polynomial domain",
     decided="nothing of a previous destination survives (truncate + size from the source before any data call); no byte "
             "count returned by the kernel is dropped on a success path; data moves from the source descriptor to the "
             "destination descriptor at explicit offsets in block jobs.",
-    not_decided="that the block jobs *cover* their range (a summation argument; containment of each job is decided), the "
-                "sparse walk's coverage, and byte equality itself: numeric/relational over run-time values.")
+    not_decided="coverage of a range by jobs of any other shape than a `lo..hi` loop with resolving expressions (listed as "
+                "undecided in the evidence), the sparse walk's coverage, and byte equality itself: numeric/relational over "
+                "run-time values.")
 
 reg("C02", p_copy.c02, {"R-ROLE": 20, "R-TABLE": 9, "R-ERR": 8, "R-SIB": 9}, ["r_role", "r_err"],
     rule="R-ROLE: every filesystem-creating/mutating call in libxcp/libfs receives a DST-role path (dest or dest.join(rel)); "
@@ -327,7 +336,8 @@ reg("C02", p_copy.c02, {"R-ROLE": 20, "R-TABLE": 9, "R-ERR": 8, "R-SIB": 9}, ["r
 
 reg("C05", p_copy.c05, {"R-SHORT": 9, "R-ERR": 60, "R-WHO": 2}, ["r_short", "r_err"],
     rule="R-SHORT in the default build and in the build without the Linux backend; R-ERR on the same chains; every caller "
-         "of try_copy_file_range reaches a user-space copier for the None (ENOSYS/EPERM/EXDEV) answer.",
+         "of try_copy_file_range reaches a user-space copier for the None (ENOSYS/EPERM/EXDEV) answer; buffer discipline: a loop "
+         "that reads into the same buffer position on every iteration writes it out inside the loop (or the read position advances).",
     technique="short-count dataflow over two build configurations + error discipline + fallback reachability",
     decided="a short count from copy_file_range/pread/pwrite/read/write is always retried to completion, checked against the "
             "request, or surfaces as Err; an unsupported facility takes a fallback whose consumer reaches the user-space "
@@ -341,14 +351,15 @@ reg("C19", p_sparse.c19, {"R-OWN": 4, "R-TABLE": 6, "R-ORDER": 1}, ["r_order"],
     rule="map_extents: the push of each kernel-reported extent dominates the latch of the loop over the mapped extents; "
          "start <- fe_logical, end <- fe_logical + fe_length. merge_extents: libfs::Extent is move-only (no Copy/Clone/Drop), "
          "and every extent taken (loop item, pending `prev`) is pushed, kept pending or has its boundary merged on every "
-         "path to the latch/return; a merged extent's start/end are plain copies of input start/end; the pending extent is "
-         "pushed at the end. next_sparse_segments: returned offsets come only from SEEK_DATA/SEEK_HOLE answers or the file "
+         "path to the latch/return; a merged extent's start/end are plain copies (or max/min) of input start/end; where the end "
+         "is a plain copy of the next extent's end, the test leading to the merge bounds its start from below by the pending "
+         "extent's end (merging never shrinks the map); the pending extent is pushed at the end. next_sparse_segments: returned offsets come only from SEEK_DATA/SEEK_HOLE answers or the file "
          "length; the hole search starts at the data offset found.",
     technique="ownership (linearity) of extent values over the CFG + provenance of range boundaries + dominance",
     decided="coverage is never dropped by xcp's own code: every extent the kernel reports is forwarded, merging consumes "
             "every input and begins/ends at input boundaries, segment offsets are the kernel's answers.",
     not_decided="that the kernel's extents are ordered, non-overlapping and that bytes outside them read as zero (kernel "
-                "semantics); the adjacency test `p.end + 1` and FIEMAP paging termination (arithmetic over run-time values). "
+                "semantics); whether `p.end + 1` is the right adjacency constant, and FIEMAP paging termination (arithmetic over run-time values). "
                 "This is a narrow claim: the relation between the map and the file's bytes itself is not decided.")
 
 NOT_APPLICABLE = {}
